@@ -164,21 +164,33 @@ fn apply(b: Builder, op: &Op, serial: i128) -> Result<Builder, reval::Error> {
                 .map(|(i, n)| Box::new(Tagged { name: intern(n), serial: serial * 100 + i as i128 }) as Box<dyn UserFunction + Send + Sync>)
                 .collect::<Vec<_>>(),
         ),
-        Op::Symbol(name, v) => Ok(b.with_symbol(name, Value::Int(*v))),
+        Op::Symbol(name, v) => Ok(b.with_symbol(name, sym_value(*v))),
         Op::Symbols(items) => b.with_symbols(symbols_table(items, serial)),
     }
 }
 
 /// A `Symbols` table built through one of its three public ways (From, insert one by one, append in two parts); the
 /// table itself must answer `get` for exactly its names, with the most recent value of each.
+/// The value registered for the model's number v: mostly Int(v); some numbers stand for values that are equal under ==
+/// yet distinguishable (0.0 / -0.0, d1.0 / d1.00), so that "most recently registered" is observable for such twins too.
+fn sym_value(v: i128) -> Value {
+    match v % 10 {
+        0 => Value::Float(0.0),
+        1 => Value::Float(-0.0),
+        2 => crate::pool::dec(10, 1),
+        3 => crate::pool::dec(100, 2),
+        _ => Value::Int(v),
+    }
+}
+
 fn symbols_table(items: &[(String, i128)], serial: i128) -> Symbols {
-    let pairs = |xs: &[(String, i128)]| xs.iter().map(|(n, v)| (n.clone(), Value::Int(*v))).collect::<Vec<_>>();
+    let pairs = |xs: &[(String, i128)]| xs.iter().map(|(n, v)| (n.clone(), sym_value(*v))).collect::<Vec<_>>();
     match serial % 3 {
         0 => Symbols::from(pairs(items)),
         1 => {
             let mut s = Symbols::default();
             for (n, v) in items {
-                s.insert(n, Value::Int(*v));
+                s.insert(n, sym_value(*v));
             }
             s
         }
@@ -200,7 +212,7 @@ fn check_symbols_table(items: &[(String, i128)], serial: i128) -> Verdict {
     }
     for name in SYM_NAMES.iter().copied().chain(items.iter().map(|x| x.0.as_str())) {
         let ok = match (want.get(name), t.get(name)) {
-            (Some(v), Ok(Value::Int(x))) => *v == *x,
+            (Some(v), Ok(x)) => same_value(x, &sym_value(*v), true),
             (None, Err(reval::Error::InvalidSymbol(n))) => n == name,
             _ => false,
         };
@@ -348,7 +360,7 @@ fn check_history(ops: &[Op]) -> Verdict {
         } else {
             let key = &pname[5..];
             match model.symbols.get(key) {
-                Some(v) => matches!(got, Ok(x) if same_value(x, &Value::Int(*v), true)),
+                Some(v) => matches!(got, Ok(x) if same_value(x, &sym_value(*v), true)),
                 None => matches!(got, Err(reval::Error::InvalidSymbol(n)) if n == key),
             }
         };
@@ -382,7 +394,7 @@ fn op_kind(op: &Op) -> &'static str {
 
 // (rule names and function names are separate name spaces: the pools overlap on purpose)
 const RULE_NAMES: [&str; 7] = ["r1", "R1", "r 1", "", "f1", "_f", "s"];
-const FN_NAMES: [&str; 10] = ["f1", "F1", "_f", "if", "key", "f-1", "é", "f1", "r1", "s"];
+const FN_NAMES: [&str; 12] = ["f1", "F1", "_f", "if", "key", "f-1", "é", "f1", "r1", "s", "facts", "name"];
 // (symbol names are arbitrary strings to the builder: also spellings with the `:` sigil, blanks and the empty name)
 const SYM_NAMES: [&str; 12] = ["s", "S", "s2", "key", "val", "if", ":s", "s:", " s", "", "::s", ":"];
 
